@@ -88,13 +88,30 @@ def rule_eq(ctx: Ctx, rule: str = "eq-fields") -> None:
                 ctx.violation(rule, fi.key, construct, "field %s of %s is never read" % (f, " and ".join(missing)), where=fi.where)
             else:
                 ctx.ok(rule, fi.key, construct)
-        # conjunction only
+        # conjunction only: the answer is True exactly when every elementary comparison holds (truth table over the
+        # comparisons met on the paths; the syntactic test - no `or`, no `!=` - is the fallback)
         construct = "%s.__eq__ combines the field comparisons by conjunction" % cname
-        bad = [nd for nd in ast.walk(fi.node) if (isinstance(nd, ast.BoolOp) and isinstance(nd.op, ast.Or)) or (isinstance(nd, ast.Compare) and any(isinstance(o, ast.NotEq) for o in nd.ops))]
-        if bad:
-            ctx.violation(rule, fi.key, construct, "uses `%s`" % norm(bad[0])[:80], where=fi.where)
+        verdict = _eq_is_conjunction(prog, fi)
+        if verdict is None:
+            bad = [nd for nd in ast.walk(fi.node) if (isinstance(nd, ast.BoolOp) and isinstance(nd.op, ast.Or)) or (isinstance(nd, ast.Compare) and any(isinstance(o, ast.NotEq) for o in nd.ops))]
+            verdict = "uses `%s`" % norm(bad[0])[:80] if bad else ""
+        if verdict:
+            ctx.violation(rule, fi.key, construct, verdict, where=fi.where)
         else:
             ctx.ok(rule, fi.key, construct)
+        # a dictionary field is compared key by key (or as a whole): its values detached from their keys say nothing
+        dfs = dict_fields(prog, cname)
+        if dfs:
+            construct = "%s.__eq__ compares the entries of a dictionary field under their keys" % cname
+            loose = [
+                nd
+                for nd in ast.walk(fi.node)
+                if isinstance(nd, ast.Call) and isinstance(nd.func, ast.Attribute) and nd.func.attr == "values" and isinstance(nd.func.value, ast.Attribute) and nd.func.value.attr in dfs and _root(nd.func.value) in (me, ot)
+            ]
+            if loose:
+                ctx.violation(rule, fi.key, construct, "`%s` takes the values without their keys: two terms with the same variables and permuted coefficients compare equal" % norm(loose[0])[:60], where=fi.where)
+            else:
+                ctx.ok(rule, fi.key, construct)
         # exact comparison: a tolerance makes equality non-transitive and lets `self - context` remove a term that is
         # only *nearly* in the context (C07)
         construct = "%s.__eq__ compares exactly (no tolerance)" % cname
@@ -120,6 +137,82 @@ def rule_eq(ctx: Ctx, rule: str = "eq-fields") -> None:
         if v[0] == "boolop" and v[1] == "And" and set(v[2]) == {("cmp", "LtE", me, ot), ("cmp", "LtE", ot, me)}:
             okc = True
     (ctx.ok(rule, fi.key, construct) if okc else ctx.violation(rule, fi.key, construct, "returns %s" % (show(ps[0].value, 4) if ps else "?"), where=fi.where))
+
+
+def _eq_is_conjunction(prog: Program, fi: FuncInfo) -> Optional[str]:
+    """'' if __eq__ returns True exactly when all its elementary comparisons hold, a reason if not, None if the
+    function is outside what the truth table can follow."""
+    from itertools import product
+
+    try:
+        ps = Sim(prog, fi, loop_iters=(0, 1, 2), assume=lambda v: const(True) if isinstance(v, tuple) and v and v[0] == "call" and v[1] == "isinstance" else None).paths()
+    except AnalysisError:
+        return None
+    ps = [p for p in ps if p.terminal == "return"]
+    if not ps:
+        return None
+
+    def atom_of(v):
+        """(atom, positive) for an elementary comparison, else None"""
+        if isinstance(v, tuple) and v and v[0] == "cmp" and v[1] in ("Eq", "NotEq"):
+            return ("eq", frozenset([v[2], v[3]])), v[1] == "Eq"
+        if isinstance(v, tuple) and v and v[0] == "call" and str(v[1]).endswith("equal") and len(v[2]) == 2:
+            return ("eq", frozenset(v[2])), True
+        return None
+
+    atoms: List[Any] = []
+
+    def collect(v):
+        a = atom_of(v)
+        if a is not None:
+            if a[0] not in atoms:
+                atoms.append(a[0])
+            return True
+        if is_const(v) and isinstance(v[1], bool):
+            return True
+        if isinstance(v, tuple) and v and v[0] == "boolop":
+            return all(collect(x) for x in v[2])
+        if isinstance(v, tuple) and v and v[0] == "un" and v[1] == "Not":
+            return collect(v[2])
+        if isinstance(v, tuple) and v and v[0] == "call" and v[1] == "bool" and len(v[2]) == 1:
+            return collect(v[2][0])
+        return False
+
+    def ev(v, env):
+        a = atom_of(v)
+        if a is not None:
+            return env[a[0]] == a[1]
+        if is_const(v):
+            return bool(v[1])
+        if v[0] == "boolop":
+            vals = [ev(x, env) for x in v[2]]
+            return all(vals) if v[1] == "And" else any(vals)
+        if v[0] == "un":
+            return not ev(v[2], env)
+        return ev(v[2][0], env)
+
+    # one scenario per choice of loop lengths (the number of coefficients is data, not a decision of the function)
+    sig = {id(p): tuple((t, c) for (t, c) in p.decisions if t.startswith("loop@")) for p in ps}
+    sigs = set(sig.values())
+    maximal = [g for g in sigs if not any(g != h and h[: len(g)] == g for h in sigs)]
+    groups: Dict[Any, List[PPath]] = {g: [p for p in ps if g[: len(sig[id(p)])] == sig[id(p)]] for g in maximal}
+    for _k, gps in sorted(groups.items(), key=lambda kv: repr(kv[0])):
+        atoms.clear()
+        forms = []
+        for p in gps:
+            lits = [(e["test"], e["taken"]) for e in p.events if e["kind"] == "branch" and e["func"] == fi.key]
+            if p.value is None or not collect(p.value) or not all(collect(t) for t, _ in lits):
+                return None
+            forms.append((lits, p.value))
+        if not atoms or len(atoms) > 10:
+            return None
+        for vals in product([True, False], repeat=len(atoms)):
+            env = dict(zip(atoms, vals))
+            got = any(all(ev(t, env) == taken for t, taken in lits) and ev(rv, env) for lits, rv in forms)
+            if got != all(vals):
+                which = [show(tuple(a[1])[0], 3) for a, x in zip(atoms, vals) if not x]
+                return "answers %s when %s" % (got, "every comparison holds" if all(vals) else "the comparison(s) on %s fail" % which)
+    return ""
 
 
 def _root(e: ast.AST) -> Optional[str]:
